@@ -12,53 +12,68 @@
 (* returned Python lists, and every later in-place operation raised.           *)
 EXTENDS Integers, Sequences, FiniteSets, TLC
 
-CONSTANTS NOBJ, MaxDepth, LegacyFromVector
+CONSTANTS NOBJ, MaxDepth, LegacyFromVector,
+          ZeroCreate        \* subset of BOOLEAN: may a constructor produce the zero state (fill = 0)?
 Obj == 1..NOBJ
-VARIABLES live, st, depth, raised
-vars == <<live, st, depth, raised>>
+VARIABLES live, st, depth, raised,
+          last          \* the call that produced this state (parameters for replaying behaviours on the real objects); not part of the VIEW
+vars == <<live, st, depth, raised, last>>
+view == <<live, st, depth, raised>>
 
 Fresh0(cls, kind) == [cls |-> cls, kind |-> kind, lenok |-> TRUE, q0 |-> 0, qL |-> 0, zero |-> FALSE]
+Call(op, o, a, b, sub) == [op |-> op, o |-> o, a |-> a, b |-> b, sub |-> sub]
 Init == live = {} /\ st = [o \in Obj |-> Fresh0("none", "ndarray")] /\ depth = 0 /\ raised = FALSE
+        /\ last = Call("init", 0, 0, 0, FALSE)
 
-Create(o, cls, q0, qL) == /\ o \in Obj \ live /\ depth < MaxDepth
-                          /\ live' = live \cup {o}
-                          /\ st' = [st EXCEPT ![o] = [Fresh0(cls, "ndarray") EXCEPT !.q0 = q0, !.qL = qL]]
-                          /\ depth' = depth + 1 /\ UNCHANGED raised
+(* MPS(qd, qD, fill) / MPO(qd, qD, fill) / a Hamiltonian constructor; fill = 0 gives the zero state *)
+Create(o, cls, q0, qL, z) == /\ o \in Obj \ live /\ depth < MaxDepth
+                             /\ live' = live \cup {o}
+                             /\ st' = [st EXCEPT ![o] = [Fresh0(cls, "ndarray") EXCEPT !.q0 = q0, !.qL = qL, !.zero = z]]
+                             /\ depth' = depth + 1 /\ UNCHANGED raised
+                             /\ last' = Call("create", o, 0, 0, FALSE)
 FromVector(o) == /\ o \in Obj \ live /\ depth < MaxDepth
                  /\ live' = live \cup {o}
                  /\ st' = [st EXCEPT ![o] = Fresh0("mps", IF LegacyFromVector THEN "list" ELSE "ndarray")]
                  /\ depth' = depth + 1 /\ UNCHANGED raised
+                 /\ last' = Call("from_vector", o, 0, 0, FALSE)
 (* orthonormalize / compress / TDVP / DMRG: need array-typed charges (unary minus), keep the total charges of non-zero states; *)
 (* the zero state may come back as a unit-norm state (the QR of a zero block returns an isometry and R = 0), with any charges *)
-InPlace(o, becomesZero) ==
-    /\ o \in live /\ st[o].cls = "mps" /\ depth < MaxDepth /\ ~raised
+InPlace(o, z, q) ==
+    /\ o \in live /\ st[o].cls \in {"mps", "mpo"} /\ depth < MaxDepth /\ ~raised
     /\ IF st[o].kind # "ndarray" THEN raised' = TRUE /\ UNCHANGED st
        ELSE /\ raised' = raised
-            /\ \E q \in {0, 1} :
-                 st' = [st EXCEPT ![o].zero = becomesZero,
-                                  ![o].qL = IF st[o].zero THEN q ELSE @]
+            /\ st' = [st EXCEPT ![o].zero = IF st[o].zero THEN z ELSE FALSE,
+                                ![o].qL = IF st[o].zero THEN q ELSE @]
     /\ depth' = depth + 1 /\ UNCHANGED live
+    /\ last' = Call("inplace", o, 0, 0, FALSE)
 (* a + b, a - b: same class, same boundary charges *)
-Add(a, b, r) == /\ a \in live /\ b \in live /\ r \in Obj \ live /\ depth < MaxDepth /\ ~raised
+Add(a, b, r, sub) ==
+                /\ a \in live /\ b \in live /\ r \in Obj \ live /\ depth < MaxDepth /\ ~raised
                 /\ st[a].cls = st[b].cls /\ st[a].q0 = st[b].q0 /\ st[a].qL = st[b].qL
                 /\ IF st[a].kind # "ndarray" \/ st[b].kind # "ndarray" THEN raised' = TRUE /\ UNCHANGED <<st, live>>
                    ELSE /\ raised' = raised /\ live' = live \cup {r}
-                        /\ st' = [st EXCEPT ![r] = [st[a] EXCEPT !.zero = FALSE]]
+                        /\ st' = [st EXCEPT ![r] = [st[a] EXCEPT !.zero = (st[a].zero /\ st[b].zero) \/ (sub /\ a = b)]]
                 /\ depth' = depth + 1
+                /\ last' = Call("add", r, a, b, sub)
 (* op |psi>, op @ op: boundary charges add *)
 Apply(a, b, r) == /\ a \in live /\ b \in live /\ r \in Obj \ live /\ depth < MaxDepth /\ ~raised
                   /\ st[a].cls = "mpo"
                   /\ live' = live \cup {r}
                   /\ st' = [st EXCEPT ![r] = [cls |-> st[b].cls, kind |-> "ndarray", lenok |-> TRUE,
-                                              q0 |-> st[a].q0 + st[b].q0, qL |-> st[a].qL + st[b].qL, zero |-> st[b].zero]]
+                                              q0 |-> st[a].q0 + st[b].q0, qL |-> st[a].qL + st[b].qL,
+                                              zero |-> st[a].zero \/ st[b].zero]]
                   /\ depth' = depth + 1 /\ UNCHANGED raised
-Next == \/ \E o \in Obj, cls \in {"mps", "mpo"}, q0 \in {0, 1}, qL \in {0, 1} : Create(o, cls, q0, qL)
+                  /\ last' = Call("apply", r, a, b, FALSE)
+Next == \/ \E o \in Obj, cls \in {"mps", "mpo"}, q0 \in {0, 1}, qL \in {0, 1}, z \in ZeroCreate : Create(o, cls, q0, qL, z)
         \/ \E o \in Obj : FromVector(o)
-        \/ \E o \in Obj, z \in BOOLEAN : InPlace(o, z)
-        \/ \E a, b, r \in Obj : Add(a, b, r) \/ Apply(a, b, r)
+        \/ \E o \in Obj, z \in BOOLEAN, q \in {0, 1} : InPlace(o, z, q)
+        \/ \E a, b, r \in Obj, sub \in BOOLEAN : Add(a, b, r, sub)
+        \/ \E a, b, r \in Obj : Apply(a, b, r)
 Spec == Init /\ [][Next]_vars
 
 LenOK == \A o \in live : st[o].lenok
 KindOK == \A o \in live : st[o].kind = "ndarray"
 NeverRaised == ~raised
+(* the total charges of a non-zero state are never changed by an in-place algorithm *)
+BoundaryKept == [][\A o \in live : (o \in live' /\ ~st[o].zero) => (st'[o].q0 = st[o].q0 /\ st'[o].qL = st[o].qL)]_vars
 =============================================================================
